@@ -127,7 +127,7 @@ def run(chk: Check) -> None:
                 chk.ob("R15.2", "%s:raise(%s)" % (g.qualname, d[-1] if d else "bare"), ok, g.loc(r),
                        "%s raises %s: every rejection must be TypeNameError(type_name)"
                        % (g.qualname, unparse(r)[:50]), 1)
-    chk.floor("R15.2", "raise statements in the parser", n_raise, 6)
+    chk.floor("R15.2", "raise statements in the parser", n_raise, 2)
     # acceptance depends on the token sequence alone: every test in the parser is about how many
     # tokens there are or whether a token is one of the three delimiters — never about *which*
     # name a token is, and never about anything outside the function
@@ -175,8 +175,9 @@ def run(chk: Check) -> None:
                "%s takes %s besides the tokens and the tree: acceptance must depend on the token "
                "sequence alone" % (g.qualname, extra), 1)
     # the root destructuring
+    # ``(tree,) = <the parsed roots>``: the one-element destructuring that enforces a single root
     roots = [n for n in walk_no_nested(f.node) if isinstance(n, ast.Assign)
-             and isinstance(n.targets[0], (ast.Tuple, ast.List))]
+             and isinstance(n.targets[0], (ast.Tuple, ast.List)) and len(n.targets[0].elts) == 1]
     ok = False
     for n in roots:
         cur = getattr(n, "_parent", None)
@@ -258,6 +259,12 @@ def run(chk: Check) -> None:
             nn = cfg.node_of(n)
             nonempty: Set[int] = set()
             for tnode, i in cfg.info.items():
+                # truthiness of the list itself: ``if tokens:`` / ``if not tokens:``
+                if i.kind == "test" and isinstance(i.ast, ast.Name) and i.ast.id == lst:
+                    for b in cfg.g.successors(tnode):
+                        if cfg.info[b].kind == "branch" and cfg.info[b].value is True:
+                            nonempty.add(b)
+                    continue
                 if i.kind != "test" or not isinstance(i.ast, ast.Compare) or len(i.ast.ops) != 1:
                     continue
                 t = i.ast
@@ -324,7 +331,7 @@ def run(chk: Check) -> None:
                        "%s indexes the token list '%s' (%s) before anything established that it is "
                        "non-empty: a name that ends right after '<' raises IndexError instead of "
                        "TypeNameError" % (g.qualname, lst, unparse(n)), 2)
-    chk.floor("R15.3", "destructuring / pop sites", n_d, 3)
+    chk.floor("R15.3", "destructuring / pop sites", n_d, 2)
     bracket_matching(chk, "R15.4")
     _remainder(chk, f, inner)
     from .purity import codec_state
